@@ -281,11 +281,12 @@ def policy_script(q, i, seed, mode):
         ta = q["tokAddr"]
         # issuance address: through X-Forwarded-For (any text) or as the TCP peer
         if h % 2 == 0 or ta["text"] not in ADDR_PEER or ta["text"] == "c2":
-            tun["mintXFF"] = ADDR_TEXT[ta["text"]]
+            tun["mintXFF"] = ADDR_TEXT[ta["text"]] + ("\n192.168.9.9" if h % 5 == 0 else "")
         else:
             tun["mintIP"] = ADDR_PEER[ta["text"]]
         tun["useIP"] = ADDR_PEER[q["peer"]["text"]]
-        tun["useXFF"] = ", ".join(ADDR_TEXT[x["text"]] for x in q["xff"])
+        # the elements of the list travel in one header line or in one line per element
+        tun["useXFF"] = (", " if h % 3 else "\n").join(ADDR_TEXT[x["text"]] for x in q["xff"])
         if not tokenAuth:
             tun["mintXFF"] = tun.get("mintXFF", "")
         elif h % 3 == 0:
@@ -331,7 +332,7 @@ def gen_policy_scripts(work, mode, tier, seed, quick_n=1500):
             if mode == "addr":
                 # every (issuing address, presenting address) pair with both settings of the switch
                 t = s["tun"]
-                cli = (t.get("useXFF") or "").split(",")[0].strip() or t.get("useIP")
+                cli = (t.get("useXFF") or "").replace("\n", ",").split(",")[0].strip() or t.get("useIP")
                 buckets[(s["cfg"]["tokenAuth"], s["cfg"]["verifyIp"], str(t.get("mintXFF") or t.get("mintIP")), str(cli))].append(s)
             else:
                 ph_user = s["tun"]["user"] if (any("PH" in e for e in s["cfg"]["hosts"]) and st["name"] in (["H127", "7"], ["H127", "8"])) else None
@@ -410,6 +411,9 @@ def gen_c16_scripts(tier, seed):
                     "chanfirst": (H_A, [{"k": "chan", "cls": "valid", "name": ["H1"], "port": "PA"}]),
                     "chanearly": (H_A, [hs, good, {"k": "chan", "cls": "valid", "name": ["H1"], "port": "PA"}]),
                     "authtwice": (H_A, [hs, good, auth, auth]),
+                    # a client that offers no mechanism at all, and one that offers everything
+                    "nomechanism": (H_A, [{"k": "hs", "cls": "valid", "caps": 0, "major": 1, "minor": 0}, good]),
+                    "allmechanisms": (H_A, [{"k": "hs", "cls": "valid", "caps": 7, "major": 1, "minor": 0}, good]),
                 }
                 # the same accepted exchange once more after every kind of refusal happened on this gateway
                 # instance: what a tunnel is answered must not depend on what other tunnels did before it
